@@ -26,6 +26,9 @@ def run(ctx):
     F = ctx.F
     # nodes of a committed tree stay readable through the overlays: an entry leaves only with the id that owns it
     shared.owner_id_removal(ctx, '6')
+    itd = F.body('column::HashColumn::init_table_data')
+    if itd:
+        lib.empty_slot_skipped(ctx, '7a empty-slot-skipped-not-terminal', itd, 'building the in-memory reference-count cache walks every slot of every ref-count page (an empty slot does not end the page)')
     n = 0
     for fn in PACKERS:
         b = ctx.body(fn)
